@@ -43,6 +43,19 @@ def _validate(out, trace, tag, timeout=3000):
     return res, events
 
 
+def _run_total(wd, args, timeout=3600):
+    """xp-total re-executes its own binary for every worker process; it runs from a private copy so that a
+    rebuild of the harness by another check cannot pull the executable away in the middle of a run."""
+    import shutil
+    import subprocess
+    exe = os.path.join(wd, "xp-harness")
+    shutil.copy2(C.HARNESS, exe)
+    p = subprocess.run([exe] + args, stdout=subprocess.PIPE, stderr=subprocess.PIPE, text=True, timeout=timeout)
+    if p.returncode != 0:
+        C.log(p.stderr[-2000:])
+        raise C.ToolError("harness %s exited %d" % (args[0], p.returncode))
+
+
 def run(prop, tier):
     t = TIERS[tier]
     out = C.Outcome(prop, tier)
@@ -65,8 +78,8 @@ def run(prop, tier):
                 f.write(line)
         trace = os.path.join(wd, "cost.trace")
         stats_p = os.path.join(wd, "cost.stats")
-        C.run_harness(["xp-total", "--in", cases, "--trace", trace, "--stats", stats_p, "--garbage", str(t["garbage"]),
-                       "--seed", str(C.seed()), "--sample", str(t["sample"]), "--workers", "6"], timeout=t["timeout"])
+        _run_total(wd, ["xp-total", "--in", cases, "--trace", trace, "--stats", stats_p, "--garbage", str(t["garbage"]),
+                        "--seed", str(C.seed()), "--sample", str(t["sample"]), "--workers", "6"], timeout=t["timeout"])
         stats = json.load(open(stats_p))
         if stats["calls"] == 0:
             raise C.ToolError("no calls")
@@ -112,7 +125,7 @@ def replay(prop, path):
         with open(inp, "w") as f:
             f.write(json.dumps({"k": "call", "fam": case["fam"], "n": case["n"], "allow": case["allow"],
                                 "maxms": case["maxms"], "doc": case["doc"], "expr": case["expr"]}) + "\n")
-        C.run_harness(["xp-total", "--in", inp, "--trace", trace, "--stats", os.path.join(wd, "s"), "--workers", "1"])
+        _run_total(wd, ["xp-total", "--in", inp, "--trace", trace, "--stats", os.path.join(wd, "s"), "--workers", "1"])
         _validate(out, trace, "xpcostrv")
         out.traces = 1
         out.evaluations = 1
